@@ -9,7 +9,7 @@ from mc.core import Result, SubCheck
 PROPERTY = "C10"
 ASSUMPTIONS = [
     "labels: all tuples of <=3 (quick) / <=4 (thorough) labels from an 12-label alphabet (flat names, nested paths, suffix/prefix clashes, a generated unit-operation name 'O1', "
-    "a path through it, an untrimmed name, the root name) x {distinct, duplicate} stream names x 5 zone-tree forms",
+    "a path through it, an untrimmed name, the root name) x {distinct, duplicate, clashing with a generated key (S, S, S_1 in every order of supply temperatures)} stream names x 5 zone-tree forms",
     "every input stream carries a unique duty, which is how a Stream object found in a zone is traced back to its input",
     "with a user zone tree only labels that resolve to exactly one node of the tree (full path, root-relative path or unique path suffix) are enumerated",
 ]
@@ -65,6 +65,10 @@ def cases(tier, inst):
                     if dup and n == 1:
                         continue
                     yield {"labels": [LABELS[i] for i in labs], "dup": dup, "tree": tname}
+                # names that clash with a GENERATED key: S, S, S_1 (all hot, every order of supply temperatures)
+                if tname == "none" and n == 3 and len(set(labs)) <= 2:
+                    for perm in itertools.permutations(range(3)):
+                        yield {"labels": [LABELS[i] for i in labs], "dup": "suffix", "perm": list(perm), "tree": tname}
 
 
 def make_problem(case):
@@ -72,6 +76,10 @@ def make_problem(case):
     streams = []
     for i, lab in enumerate(case["labels"]):
         hot = i % 2 == 0
+        if case["dup"] == "suffix":
+            streams.append({"zone": lab, "name": ["S", "S", "S_1"][i], "t_supply": 150.0 + 10.0 * case["perm"][i], "t_target": 60.0,
+                            "heat_flow": 100.0 + i, "dt_cont": 5.0, "htc": 1.0})
+            continue
         streams.append({"zone": lab, "name": "S" if case["dup"] else f"S{i + 1}",
                         "t_supply": 150.0 if hot else 40.0, "t_target": 60.0 if hot else 120.0,
                         "heat_flow": 100.0 + i, "dt_cont": 5.0, "htc": 1.0})
@@ -113,7 +121,7 @@ def run(case, res: Result):
                 else:
                     res.violate("foreign_stream_in_zone", case, {"zone": "/".join(path), "duty": s.heat_flow}, "foreign_stream_in_zone")
     leaves = {path for path, z in zones if not z.subzones}
-    tag = f"tree={case['tree']}" + (":dupnames" if case["dup"] else "")
+    tag = f"tree={case['tree']}" + (":dupnames" if case["dup"] is True else (":suffix-names" if case["dup"] else ""))
     labs = case["labels"]
     interesting = len(set(labs)) >= 2 and any(a != b and (a.endswith("/" + b) or a.startswith(b + "/") or b.endswith("/" + a) or b.startswith(a + "/"))
                                              for a in labs for b in labs)
@@ -150,8 +158,9 @@ def run(case, res: Result):
             got_n = len(z.hot_streams) + len(z.cold_streams)
             got_hot = sum(s.heat_flow for s in z.hot_streams)
             got_cold = sum(s.heat_flow for s in z.cold_streams)
-            exp_hot = sum(100.0 + i for i in exp if i % 2 == 0)
-            exp_cold = sum(100.0 + i for i in exp if i % 2 == 1)
+            all_hot = case["dup"] == "suffix"
+            exp_hot = sum(100.0 + i for i in exp if all_hot or i % 2 == 0)
+            exp_cold = sum(100.0 + i for i in exp if not all_hot and i % 2 == 1)
             if got_n != len(exp) or abs(got_hot - exp_hot) > 1e-9 or abs(got_cold - exp_cold) > 1e-9:
                 res.violate("zone_count_or_duty", case, {"zone": "/".join(path), "count": got_n, "expected_count": len(exp), "hot": got_hot, "expected_hot": exp_hot,
                                                          "cold": got_cold, "expected_cold": exp_cold}, f"zone_count_or_duty:{tag}:depth{len(path) - 1}")
